@@ -1,21 +1,25 @@
-(* C29 obligation: Lt(a,b) is true exactly when val a < val b.
-   - all exact reals and +-oo, any size: proved (Lt_correct_exact);
-   - pairs involving doubles: proved on the complete palette the check runs (kernel sweep),
-     outside two classes in which the statement is REFUTED (each replayed on the library):
-       * an exact operand is converted to double by truncation before the subtraction
-         (Lt(RealDouble(2^53), 2^53+1) = False; `lt D:4340000000000000 I:9007199254740993`),
-       * an infinite double against the symbolic infinity (Lt(RealDouble(inf), oo) = True). *)
-From SE Require Import Num.NumModel Num.NumPalette Num.NumC29 Num.NumC29P.
+(* C29 obligation: Lt(a,b) is true exactly when val a < val b, for ALL real numbers of ALL
+   kinds and values (Integer, Rational of any size, every non-NaN double bit pattern, +-oo):
+   the difference lhs - rhs is computed by the class methods (exact, or IEEE after converting an
+   exact operand), and its sign decides (Flocq: the rounded difference of two doubles is never
+   zero unless they are equal, and overflow keeps the sign).
+   Two classes are excluded by lt_guard, in which the statement is REFUTED (each replayed on
+   the library):
+     * an exact operand that is not exactly representable is truncated to double first
+       (Lt(RealDouble(2^53), 2^53+1) = False; `lt D:4340000000000000 I:9007199254740993`),
+     * an infinite double against the symbolic infinity (Lt(RealDouble(inf), oo) = True). *)
+From SE Require Import Num.NumModel Num.NumC29 Num.NumC29F Num.NumC29P.
+Theorem C29_Lt_correct_guarded :
+  forall a b x y, num_wf a = true -> num_wf b = true -> val a = Some x -> val b = Some y ->
+  lt_guard a b = false -> rel_lt a b = Ok (Some (ext_ltb x y)).
+Proof. intros a b x y Ha Hb Hx Hy Hg. exact (proj1 (Lt_Le_correct_guarded a b x y Ha Hb Hx Hy Hg)). Qed.
+Print Assumptions C29_Lt_correct_guarded.
+(* exact reals and +-oo: no guard, no normal-form hypothesis *)
 Theorem C29_Lt_correct_exact :
   forall a b x y, xreal a = true -> xreal b = true -> val a = Some x -> val b = Some y ->
   rel_lt a b = Ok (Some (ext_ltb x y)).
 Proof. exact Lt_correct_exact. Qed.
 Print Assumptions C29_Lt_correct_exact.
-Theorem C29_Lt_correct_palette_guarded :
-  forall a b, In a real_palette -> In b real_palette -> lt_guard a b = false ->
-  exists x y, val a = Some x /\ val b = Some y /\ rel_lt a b = Ok (Some (ext_ltb x y)).
-Proof. exact Lt_correct_palette_guarded. Qed.
-Print Assumptions C29_Lt_correct_palette_guarded.
 Theorem C29_Lt_correct_refuted :
   (exists a b x y, val a = Some x /\ val b = Some y /\ ext_ltb x y = true /\ rel_lt a b = Ok (Some false) /\
                    guard_inexact_conv a b = true) /\
